@@ -1,3 +1,4 @@
+#include <iostream>
 // fp / primes half of C18: complete enumeration of argument boxes for ext_gcd, get_mult_inverse, is_prime,
 // for int, long and cpp_int, against schoolbook references.
 #include "common/runner.hpp"
@@ -127,6 +128,9 @@ static void dispatch_one(vr::Runner &R, const char *tn, std::map<std::string, st
 
 int main(int argc, char **argv) {
     vr::Args A(argc, argv);
+#ifdef PARMCB_LOGGING
+    std::cout.setstate(std::ios_base::badbit);      // built against a config.hpp with PARMCB_LOGGING on: the library chats on std::cout (harness output uses stdio)
+#endif
     vr::Runner R;
     R.nworkers = (int) A.geti("workers", 16);
     if (A.has("deadline-s")) R.deadline_abs = vr::now_s() + A.getd("deadline-s", 0);
